@@ -224,6 +224,11 @@ func (node *Node) ProcessBlock(ctx context.Context, block wire.Block) error {
 
 	// Add to repo
 	if err := node.blocks.Add(ctx, &header); err != nil {
+		if errors.Cause(err) == handlersstorage.ErrNotNextBlock {
+			// There was a reorg since the previous hash was checked above.
+			logger.Warn(ctx, "Not next block anymore : %s", hash)
+			return ErrBlockNotNextBlock
+		}
 		return errors.Wrap(err, "add block")
 	}
 
